@@ -213,7 +213,8 @@ def c05(run):
                             dict(spec="Spec", constants=consts, invariants=["MemoTransparent", "Emit", "EmitBs"]),
                             "C05", workers=4, threads=8, timeout=7000)
     run.add(tlc, s)
-    run.rule = ("TLC enumerates targets P.base.suffix.Q (300 texts from real bases/suffix keys/punctuation incl. colon, back-tick, quotes) x up to %d earlier words "
+    run.rule = ("TLC enumerates targets P.base.suffix.Q (224 quick / 525 thorough texts from real bases incl. case-sensitive spellings, suffix keys, punctuation incl. colon, "
+                "back-tick, quotes) x up to %d earlier words "
                 "in the same context x a plainly typed prefix x every edit path of up to %d steps (next character / wrong character / backspace), checks "
                 "MemoTransparent on the memo model, and emits each history whose surviving text is a non-empty prefix of the target as a pair: (long-lived warm "
                 "context that has composed all earlier scenarios, with a second context of the same process used between the steps) vs (brand-new context typing "
